@@ -153,9 +153,16 @@ type Emitter struct {
 	ops    []Op
 	nin    int
 	consts map[string]int
+	// constant-time mode only needs to know THAT translation succeeds: count instructions instead of storing them
+	countOnly bool
+	count     int
 }
 
 func (e *Emitter) emit(o Op) int {
+	if e.countOnly {
+		e.count++
+		return e.nin + e.count - 1
+	}
 	e.ops = append(e.ops, o)
 	return e.nin + len(e.ops) - 1
 }
@@ -654,7 +661,7 @@ func leaves(c *Cell, f func(*Cell)) {
 	f(c)
 }
 
-const maxSteps = 50_000_000
+const maxSteps = 400_000_000
 
 func (in *Interp) hashSum(h *HashObj) []Value {
 	conc := true
@@ -1372,6 +1379,7 @@ type Target struct {
 	// constant-time mode (-ct): "ct" = must translate (no input-dependent branch / index / shift / length),
 	// "leak" = negative control: a variable-time routine that must be REJECTED (sanity check of the detector)
 	Expect  string   `json:"expect"`
+	Tier    string   `json:"tier"`    // "thorough": skipped unless -tier thorough
 	Declass []string `json:"declass"` // functions (ssa names) in which comparisons on symbolic values are documented declassifications
 }
 
@@ -1384,6 +1392,7 @@ type Result struct {
 	OutBits []int
 	Err     string
 	Wrap    string // Go source of the T0 wrapper closure body
+	NOps    int
 }
 
 func findFunc(pkg *ssa.Package, name string) *ssa.Function {
@@ -1421,6 +1430,7 @@ func translate(prog *ssa.Program, pkg *ssa.Package, globals map[*ssa.Global]*Cel
 			return r2
 		}
 		res.Ops = append(res.Ops, r2.Ops...)
+		res.NOps += r2.NOps
 	}
 	return res
 }
@@ -1440,7 +1450,7 @@ func translate1(prog *ssa.Program, pkg *ssa.Package, globals map[*ssa.Global]*Ce
 	if fn == nil {
 		fail("function %s not found in %s", t.Fn, t.Pkg)
 	}
-	em := &Emitter{consts: map[string]int{}}
+	em := &Emitter{consts: map[string]int{}, countOnly: ctCountOnly}
 	in := &Interp{prog: prog, em: em, globals: globals, declass: map[string]bool{}, declassVal: declassVal, initComplete: func() bool { v, _ := initCompleteByProg.Load(prog); b, _ := v.(bool); return b }()}
 	for _, d := range t.Declass {
 		in.declass[d] = true
@@ -1745,10 +1755,12 @@ func main() {
 		overlay = flag.String("overlay", "", "directory whose files are grafted onto the repository tree (export/<pkg path>/*.go, build tag verif)")
 		ctOut   = flag.String("ct", "", "constant-time mode: translate every target, write only a summary (json) to this file")
 		gowrap  = flag.String("gowrap", "", "output directory for generated Go wrappers (export/<pkg>/verif_t0_<group>.go) used by stream T0")
+		tier    = flag.String("tier", "quick", "quick | thorough (targets marked thorough are skipped in quick)")
 		asm     = flag.Bool("asm", false, "also translate the amd64 field assembly (group FieldAsm)")
 		globals = flag.String("globals", "", "comma separated <pkg>:<tags>:<LeanGroup> triples: dump every package-level variable after interpreting the initialisers")
 	)
 	flag.Parse()
+	ctCountOnly = *ctOut != ""
 	if *globals != "" {
 		dumpGlobals(*repo, *module, *globals, *leanDir)
 		return
@@ -1766,6 +1778,9 @@ func main() {
 	byKey := map[key][]Target{}
 	var keys []key
 	for _, t := range ts {
+		if t.Tier == "thorough" && *tier != "thorough" {
+			continue
+		}
 		k := key{t.Pkg, t.Tags}
 		if _, ok := byKey[k]; !ok {
 			keys = append(keys, k)
@@ -1891,7 +1906,7 @@ func main() {
 		}
 		var out []ctRes
 		for _, r := range results {
-			out = append(out, ctRes{Name: r.T.Name, Pkg: r.T.Pkg, Fn: r.T.Fn, Tags: r.T.Tags, Expect: r.T.Expect, Err: r.Err, Ok: r.Err == "", Ops: len(r.Ops), Inputs: r.Nin})
+			out = append(out, ctRes{Name: r.T.Name, Pkg: r.T.Pkg, Fn: r.T.Fn, Tags: r.T.Tags, Expect: r.T.Expect, Err: r.Err, Ok: r.Err == "", Ops: r.NOps, Inputs: r.Nin})
 		}
 		js, _ := json.MarshalIndent(out, "", " ")
 		os.MkdirAll(filepath.Dir(*ctOut), 0o755)
@@ -2047,6 +2062,7 @@ func flatten(v Value, seen map[*Cell]bool, out *[]string, ok *bool) {
 }
 
 var zeroUnwritten bool
+var ctCountOnly bool
 
 // witness search state (set by -witness)
 var concreteInputs []uint64
